@@ -369,4 +369,73 @@ func init() {
 			},
 		}
 	})
+
+	// list-drain: lists of every length 1..maxn (gap 2) drained from the front by every number of pops
+	// (0..n), and from the back by 0..2 more, then grown again by two versions: all lookups at all probe
+	// points against the reference after the draining and after the regrowth. Exercises whatever the
+	// search array does as it grows and shrinks (capacity boundaries 32/64/128 included).
+	enum.Register("list-drain", func(p string) *enum.Family {
+		maxn := 140
+		fmt.Sscanf(p, "maxn=%d", &maxn)
+		type dc struct{ n, k int }
+		var cases []dc
+		for n := 1; n <= maxn; n++ {
+			for k := 0; k <= n; k++ {
+				cases = append(cases, dc{n, k})
+			}
+		}
+		return &enum.Family{
+			Count:    func() int64 { return int64(len(cases)) },
+			Describe: func(i int64) any { return map[string]any{"length": cases[i].n, "front_pops": cases[i].k} },
+			Run: func(i int64) *enum.Outcome {
+				o := &enum.Outcome{States: []uint64{uint64(i)}}
+				c := cases[i]
+				for back := 0; back <= 2 && c.k+back <= c.n; back++ {
+					l := newImpl(false)
+					r := &refList{}
+					for j := 0; j < c.n; j++ {
+						s := uint64(2*j + 2)
+						l.push(s)
+						r.seqs = append(r.seqs, s)
+					}
+					f := l.tx.File(listKey)
+					for j := 0; j < c.k; j++ {
+						o.Steps++
+						n := f.PopFront()
+						if n == nil || uint64(n.V().Seq) != r.seqs[0] {
+							o.Mismatch = mm("PopFront number %d of a list of %d returned the wrong version", j+1, c.n)
+							return o
+						}
+						r.seqs = r.seqs[1:]
+					}
+					for j := 0; j < back; j++ {
+						o.Steps++
+						n := f.PopBack()
+						if n == nil || uint64(n.V().Seq) != r.seqs[len(r.seqs)-1] {
+							o.Mismatch = mm("PopBack number %d of a list of %d after %d front pops returned the wrong version", j+1, c.n, c.k)
+							return o
+						}
+						r.seqs = r.seqs[:len(r.seqs)-1]
+					}
+					max := uint64(2*c.n + 7)
+					ctx := fmt.Sprintf("length %d, %d front pops, %d back pops", c.n, c.k, back)
+					if len(r.seqs) > 0 {
+						if m := compare(l, r, max, true, ctx, &o.Checks); m != nil {
+							o.Mismatch = m
+							return o
+						}
+					}
+					for _, s := range []uint64{uint64(2*c.n + 3), uint64(2*c.n + 5)} {
+						l.push(s)
+						r.seqs = append(r.seqs, s)
+					}
+					if m := compare(l, r, max, true, ctx+", then two more versions", &o.Checks); m != nil {
+						o.Mismatch = m
+						return o
+					}
+				}
+				return o
+			},
+		}
+	})
 }
